@@ -216,6 +216,63 @@ def check_pu_state(project: Project, oa, rep, rule="PU-STATE"):
     return n_flag, mutable_objects
 
 
+REPORT_CALLS = ("debug", "info", "warning", "error", "log", "print", "warn", "verboseprint", "exception", "critical")
+
+
+def _clock_only_reported(fi, call) -> bool:
+    """every value derived from this clock reading (through plain assignments and arithmetic) ends in the arguments of a
+    logging / print / warnings call — or is never used"""
+    f = fi.node
+    parents = {}
+    for n in ast.walk(f):
+        for c in ast.iter_child_nodes(n):
+            parents[id(c)] = n
+
+    def in_report(n):
+        p = parents.get(id(n))
+        while p is not None and not isinstance(p, ast.stmt):
+            if isinstance(p, ast.Call):
+                fn = p.func
+                nm = fn.attr if isinstance(fn, ast.Attribute) else getattr(fn, "id", "")
+                if nm in REPORT_CALLS:
+                    return True
+            p = parents.get(id(p))
+        return False
+    tainted, todo = set(), [call]
+    seen = set()
+    while todo:
+        n = todo.pop()
+        if id(n) in seen:
+            continue
+        seen.add(id(n))
+        if in_report(n):
+            continue
+        p = parents.get(id(n))
+        while p is not None and isinstance(p, (ast.BinOp, ast.UnaryOp, ast.Call)) and not isinstance(p, ast.stmt):
+            if isinstance(p, ast.Call):
+                fn = p.func
+                nm = fn.attr if isinstance(fn, ast.Attribute) else getattr(fn, "id", "")
+                if nm in REPORT_CALLS:
+                    break
+                if nm not in ("round", "float", "int", "max", "min", "abs", "format"):
+                    return False   # handed to something else
+            n, p = p, parents.get(id(p))
+        if isinstance(p, ast.Call):
+            continue   # ended in a report call
+        if isinstance(p, ast.Assign) and len(p.targets) == 1 and isinstance(p.targets[0], ast.Name):
+            nm = p.targets[0].id
+            if nm not in tainted:
+                tainted.add(nm)
+                todo += [x for x in ast.walk(f) if isinstance(x, ast.Name) and x.id == nm and isinstance(x.ctx, ast.Load)]
+            continue
+        if isinstance(p, ast.Expr):
+            continue
+        if isinstance(p, (ast.JoinedStr, ast.FormattedValue)) and in_report(p):
+            continue
+        return False
+    return True
+
+
 def check_pu_rng(project: Project, oa, rep, allowed=RNG_ALLOWED_FUNCS, rule="PU-RNG"):
     n_flag = 0
     sites = 0
@@ -228,6 +285,11 @@ def check_pu_rng(project: Project, oa, rep, allowed=RNG_ALLOWED_FUNCS, rule="PU-
                 continue
             owner = project.enclosing_function(fi.module, node)
             if owner is None or owner.qualname.split(".<locals>")[0] != q:
+                continue
+            if tgt.startswith("time.") and _clock_only_reported(fi, node):
+                # a clock read whose value only ever reaches a log / print / warning call: timing diagnostics, no result
+                # depends on it
+                rep.discharged(rule, fi, node, f"{tgt}: the reading is only reported (logging), it reaches no result", nontrivial=False)
                 continue
             sites += 1
             if q not in allowed:
